@@ -315,6 +315,12 @@ func (r *runner) with(mode string, ro bool, fn func(ctx context.Context, tx data
 func (r *runner) exec(o op) {
 	m := r.rec(o)
 	var err error
+	defer func() {
+		// a panic inside the part store (on the calling goroutine) is an observation, not a driver failure
+		if p := recover(); p != nil {
+			m["err"], m["detail"] = "other", fmt.Sprintf("panic: %v", p)
+		}
+	}()
 	switch o.Op {
 	case "begin":
 		r.txc, err = r.e.db.BeginTx(dctx, &sql.TxOptions{ReadOnly: o.Ro})
@@ -345,7 +351,7 @@ func (r *runner) exec(o op) {
 			if err != nil {
 				return err
 			}
-			d, rerr := io.ReadAll(rc)
+			d, rerr := readAll(rc)
 			cerr := rc.Close()
 			if rerr != nil {
 				return fmt.Errorf("read: %w", rerr)
@@ -403,6 +409,31 @@ func (r *runner) exec(o op) {
 	}
 	if o.Op != "drain" {
 		m["err"], m["detail"] = errKind(err)
+	}
+}
+
+// readAll is io.ReadAll, except that a reader which keeps returning (0, nil) is reported as an
+// error instead of spinning forever.
+func readAll(r io.Reader) ([]byte, error) {
+	var out []byte
+	buf := make([]byte, 64*1024)
+	idle := 0
+	for {
+		n, err := r.Read(buf)
+		out = append(out, buf[:n]...)
+		if err == io.EOF {
+			return out, nil
+		}
+		if err != nil {
+			return out, err
+		}
+		if n == 0 {
+			if idle++; idle > 100 {
+				return out, errors.New("reader stalled: Read keeps returning (0, nil)")
+			}
+		} else {
+			idle = 0
+		}
 	}
 }
 
